@@ -29,6 +29,7 @@ struct Outcome {
     rust: String,
     sha: String,
     text: String, // the `def` or the `-- UNTRANSLATED` comment
+    contracts: Vec<String>,
 }
 
 fn find_fn<'r>(reg: &'r Registry, t: &Target) -> R<(&'r syn::Signature, &'r syn::Block, String)> {
@@ -72,6 +73,8 @@ fn find_fn<'r>(reg: &'r Registry, t: &Target) -> R<(&'r syn::Signature, &'r syn:
                         continue;
                     }
                     let name = match &*im.self_ty {
+                        // `impl From<Language> for Option<u64>`: the whole type text
+                        syn::Type::Path(p) if imp.contains('<') => norm_tokens(p).replace(' ', ""),
                         syn::Type::Path(p) => p.path.segments.last().map(|s| s.ident.to_string()).unwrap_or_default(),
                         _ => String::new(),
                     };
@@ -145,7 +148,7 @@ fn translate_one(
         Ok(x) => x,
         Err(e) => {
             return (
-                Outcome { ok: false, reason: e.clone(), rust, sha: String::new(), text: format!("-- UNTRANSLATED {}: {}\n", t.lean, e) },
+                Outcome { ok: false, reason: e.clone(), rust, sha: String::new(), text: format!("-- UNTRANSLATED {}: {}\n", t.lean, e), contracts: Vec::new() },
                 None,
             )
         }
@@ -180,6 +183,7 @@ fn translate_one(
         uses_t: false,
         uses_l: false,
         features: cfg_features.clone().unwrap_or_else(|| config::features_of(t.lean)),
+        contracts: BTreeSet::new(),
     };
     if let Some(i) = t.imp {
         if let Some((tr_name, x)) = i.split_once(" for ") {
@@ -201,10 +205,10 @@ fn translate_one(
     }
     let sha = sha256::sha256_hex(hashed.as_bytes());
     match res {
-        Ok((text, fsig)) => (Outcome { ok: true, reason: String::new(), rust, sha, text }, Some(fsig)),
+        Ok((text, fsig)) => (Outcome { ok: true, reason: String::new(), rust, sha, text, contracts: tr.contracts.iter().cloned().collect() }, Some(fsig)),
         Err(e) => {
             let e1 = norm_ws(&e);
-            (Outcome { ok: false, reason: e1.clone(), rust, sha, text: format!("-- UNTRANSLATED {}: {}\n", t.lean, e1) }, None)
+            (Outcome { ok: false, reason: e1.clone(), rust, sha, text: format!("-- UNTRANSLATED {}: {}\n", t.lean, e1), contracts: Vec::new() }, None)
         }
     }
 }
@@ -456,6 +460,7 @@ fn translate_fn(tr: &mut Tr, sig: &syn::Signature, block: &syn::Block) -> R<(Str
         plain_res: tr.plain_res,
         uses_t: tr.uses_t,
         uses_l: tr.uses_l,
+        contracts: tr.contracts.iter().cloned().collect(),
     };
     Ok((text, fsig))
 }
@@ -721,7 +726,7 @@ fn main() {
         }
         first = false;
         js.push_str(&format!(
-            "{}: {{\"status\": {}, \"reason\": {}, \"rust\": {}, \"sha\": {}, \"module\": {}, \"group\": {}, \"model\": {}, \"arity\": {}}}",
+            "{}: {{\"status\": {}, \"reason\": {}, \"rust\": {}, \"sha\": {}, \"module\": {}, \"group\": {}, \"model\": {}, \"arity\": {}, \"contracts\": [{}]}}",
             json_str(t.lean),
             json_str(if o.ok { "ok" } else if ns.is_some() && o.reason.contains("not found in") { "absent" } else { "unsupported" }),
             json_str(&o.reason),
@@ -730,7 +735,8 @@ fn main() {
             json_str(t.module),
             json_str(t.group),
             json_str(t.model),
-            t.model_type.matches('→').count()
+            t.model_type.matches('→').count(),
+            o.contracts.iter().map(|c| json_str(c)).collect::<Vec<_>>().join(", ")
         ));
     }
     js.push_str("}, \"types\": {");
